@@ -140,42 +140,60 @@ def run(ctx: Ctx) -> None:
 
 
 def rows_rule(ctx: Ctx) -> None:
+    """_memory_repr in normal form (loop normalisation + symflow): one row per written address, keyed by the address
+    rounded down to the row width, read with the accessor of that width and formatted with that width.  Locals,
+    if/elif versus conditional expressions, `continue` versus a nested if do not matter."""
+    from ..parsershape import normal_flow
     m = ctx.model
-    r = ctx.rule("R17.rows", "_memory_repr: rows from the backing store's keys, aligned, one width throughout")
-    f = m.method("Memory", "_memory_repr", own=True)
-    w = f.params[1]
-    s0 = f.params[0]
-    body = f.node
-    txt = " ".join(ast.unparse(body).split())
-    # reader selection by the same width
-    sel = None
-    for n in walk_no_nested(body):
-        if isinstance(n, ast.Assign) and isinstance(n.value, ast.IfExp):
-            sel = n
-    table = {}
-    e = sel.value if sel is not None else None
-    while isinstance(e, ast.IfExp):
-        t = e.test
-        if isinstance(t, ast.Compare) and ast.unparse(t.left) == w and isinstance(t.ops[0], ast.Eq):
-            table[const_int(t.comparators[0])] = ast.unparse(e.body)
-        e = e.orelse
-    if e is not None:
-        table["else"] = ast.unparse(e)
-    want = {8: f"{s0}.read_byte", 16: f"{s0}.read_halfword", 32: f"{s0}.read_word", "else": f"{s0}.read_doubleword"}
-    r.check(table == want, "Memory._memory_repr|reader", f.loc(sel) if sel is not None else f.loc(),
-            f"row reader selection is {table}, expected {want}")
-    r.check(f"num_keys_of_one_block = {w} // {s0}.memory_file_values_width" in txt, "Memory._memory_repr|cells-per-row", f.loc(),
-            "cells per row is not width // cell width")
-    r.check(f"for address in {s0}.memory_file.keys()" in txt or f"for address in {s0}.memory_file" in txt, "Memory._memory_repr|keys", f.loc(),
-            "rows are not derived from the addresses actually written")
-    r.check("aligned_address = address - address % num_keys_of_one_block" in txt, "Memory._memory_repr|align", f.loc(),
-            "row address is not the written address rounded down to the row width")
-    fc = [c for c in calls_in(body) if isinstance(c.func, ast.Name) and c.func.id == "get_n_bit_representations"]
-    ok = len(fc) == 1 and len(fc[0].args) == 2 and ast.unparse(fc[0].args[1]) == w and ast.unparse(fc[0].args[0]) == "int(word)"
-    r.check(ok, "Memory._memory_repr|format", f.loc(), "the row value is not formatted with the row width")
-    r.check("word = read_fkt(aligned_address)" in txt and "repr_map[aligned_address] =" in txt, "Memory._memory_repr|read", f.loc(),
-            "the row value is not read at the aligned address / not stored under it")
+    r = ctx.rule("R17.rows", "_memory_repr: rows from the backing store's keys, aligned, one width throughout (normal form)")
+    f = m.method("Memory", "_memory_repr")
+    fl = normal_flow(m, f)
+    stores = [e for e in fl.effects if e.kind == "store" and isinstance(e.expr.targets[0], ast.Subscript)]  # type: ignore[attr-defined]
+    if len(stores) != 1:
+        r.check(False, "Memory._memory_repr|read", f.loc(), f"expected one store of a formatted row per address, found {len(stores)}")
+        return
+    e = stores[0]
+    tgt, val = e.expr.targets[0], e.expr.value  # type: ignore[attr-defined]
+    key = fl.canon(tgt.slice)
+    elems = [f"ELEM1.0({it})" for it in ("P0.memory_file.keys()", "P0.memory_file", "list(P0.memory_file)", "list(P0.memory_file.keys())", "sorted(P0.memory_file)")]
+    el = next((x for x in elems if x in key), None)
+    r.check(el is not None, "Memory._memory_repr|keys", f.loc(e.node), f"rows are not derived from the addresses actually written (row key: {fl.show(tgt.slice)})")
+    if el is None:
+        return
+    cells = "FloorDiv(P1, P0.memory_file_values_width)"
+    aa = f"Sub({el}, Mod({el}, {cells}))"
+    r.check(key == aa, "Memory._memory_repr|align", f.loc(e.node),
+            f"row address is `{fl.show(tgt.slice)}`, not the written address rounded down to the row width (address - address % (width // cell width))")
+    want_word = (f"cases[Eq(16, P1); Eq(32, P1); Eq(8, P1)]{{P0.read_byte(address={aa}) #10; P0.read_doubleword(address={aa}) #1; "
+                 f"P0.read_halfword(address={aa}) #2; P0.read_word(address={aa}) #4}}")
+    ok = isinstance(val, ast.Call) and isinstance(val.func, ast.Name) and val.func.id == "get_n_bit_representations"
+    got_word = got_n = None
+    if ok:
+        from ..cacheshape import call_args  # noqa: F401
+        fn = m.module("util.integer_representations").functions.get("get_n_bit_representations")
+        params = fn.params if fn is not None else ["number", "n"]
+        a = {p_: v for p_, v in zip(params, val.args)}
+        a.update({k.arg: k.value for k in val.keywords})
+        num, nn = a.get(params[0]), a.get(params[1])
+        got_n = fl.canon(nn) if nn is not None else None
+        if isinstance(num, ast.Call) and isinstance(num.func, ast.Name) and num.func.id == "int" and num.args:
+            got_word = fl.canon(num.args[0])
+    r.check(ok and got_n == "P1", "Memory._memory_repr|format", f.loc(e.node), f"the row value is not formatted with the row width (n = {got_n})")
+    r.check(got_word is not None and _same_cases(got_word, want_word), "Memory._memory_repr|reader", f.loc(e.node),
+            f"the row value is `{got_word}`; it must be read at the aligned address with read_byte / read_halfword / read_word / "
+            "read_doubleword for 8 / 16 / 32 / other row widths")
+    # one row per aligned address: the store happens exactly when the row is not there yet
+    cond = fl.canon_cond(e.cond)
+    r.check("In(" in cond and "LOOP1" in cond, "Memory._memory_repr|read", f.loc(e.node),
+            f"the row is not stored exactly once per aligned address (condition: {cond})")
+    rets = [fl.canon(x.value) for x in fl.returns]
+    r.inst("Memory._memory_repr|returns", rets)
     r.floor(6)
+
+
+def _same_cases(a: str, b: str) -> bool:
+    """Two `cases[...]` prints with the same leaves and tables (the atom order inside [...] is canonical already)."""
+    return a == b
 
 
 def fmt_rule(ctx: Ctx) -> None:
